@@ -18,6 +18,7 @@ type PropConfig struct {
 	Targets []PropTarget `json:"targets"`
 	Engines []string     `json:"engines"` // extra engines: "frames:C10", "globals", "commute", "tables:..." (see engines.go)
 	Note    string       `json:"note"`
+	Level   string       `json:"level"` // evidence level; default "proof"; "exploration" for properties decided only by a bounded harness
 }
 
 type PropTarget struct {
@@ -376,7 +377,7 @@ func writeEvidence(id, tier string, seed int, pc *PropConfig, r *checkResult, wa
 		"property_id": id,
 		"tier":        tier,
 		"seed":        seed,
-		"level":       "proof",
+		"level":       pc.evidenceLevel(),
 		"coverage":    cov,
 		"assumptions": assumptions,
 		"wall_s":      round3(wall),
@@ -425,4 +426,12 @@ func trimModel(m string) string {
 		return m[:20000] + "\n... (truncated)"
 	}
 	return m
+}
+
+// evidenceLevel: "proof" unless the property is decided only by a bounded harness.
+func (pc *PropConfig) evidenceLevel() string {
+	if pc.Level != "" {
+		return pc.Level
+	}
+	return "proof"
 }
